@@ -29,4 +29,6 @@ run C01-D C15
 run C18-B C10
 run C11-B C13
 run C11-C C13
+run C01-E C20
+run C20-D C08
 rm -rf /tmp/seedmatrix_evidence /tmp/seedmatrix_replays
